@@ -26,7 +26,13 @@ Definition blocks_of (ls : list load) : list block := map l_block ls.
    (false: block missing, link budget exhausted, undecodable node, ...) *)
 Record trace := mktrace { t_loads : list load; t_ok : bool }.
 
-Inductive terr := TWalk | TSizeMismatch | TOffsetImpossible | TIndex.
+Inductive terr := TWalk | TSizeMismatch | TOffsetImpossible | TIndex
+                | TPanic.   (* runtime panic "makeslice: len out of range" *)
+
+(* Go's runtime refuses make([]byte, n) for n above maxAlloc = 2^48 (64-bit Linux) with a panic.
+   The padding buffers are allocated in one piece, so a padding above this never gets written.
+   (Below it the model writes the zeros; whether the machine has that much memory is outside it.) *)
+Definition max_alloc : N := 281474976710656.
 
 (* ---- layer B: "each block once, in first-visit order" -------------------------------- *)
 Fixpoint mem (c : bytes) (s : list bytes) : bool :=
@@ -168,7 +174,10 @@ Section MapOrder.
   Definition write_v2_header (o : topts) (size : N) : bytes * option terr :=
     let h := tc_header o size in
     let base := pragma ++ enc_v2hdr h in
-    if blen base <? h_doff h then (base ++ zerosN (h_doff h - blen base), None)
+    if blen base <? h_doff h then
+      (* buf := make([]byte, h.DataOffset-uint64(hn)) *)
+      if max_alloc <? h_doff h - blen base then (base, Some TPanic)
+      else (base ++ zerosN (h_doff h - blen base), None)
     else if h_doff h <? blen base then (base, Some TOffsetImpossible)
     else (base, None).
 
@@ -186,6 +195,9 @@ Section MapOrder.
       | V1Err e => mkw (hb ++ v_bytes v) n (Some e) tcsize
       | V1Ok None => mkw (hb ++ v_bytes v) n None (v_size v)
       | V1Ok (Some idx) =>
+          (* buf := make([]byte, tc.opts.IndexPadding) -- after the payload went out *)
+          if max_alloc <? o_ipad o then mkw (hb ++ v_bytes v) n (Some TPanic) (v_size v)
+          else
           let pad := if 0 <? o_ipad o then zerosN (o_ipad o) else [] in
           let ib := idx_write idx in
           mkw (hb ++ v_bytes v ++ pad ++ ib) (n + blen pad + blen ib) None (v_size v)
